@@ -24,26 +24,28 @@ theorem number_coprime (L o b : Nat) (hL : L % 30 = 0) (hb : b < 8) :
   rw [this, Nat.gcd_comm, Nat.gcd_add_mul_left_right, Nat.gcd_comm]
   exact (offs_coprime b hb).1
 
-/-- **segment correctness at the level of numbers**: take any number n = L + 30·o + offs[b] of a segment starting at L (n > 163,
+/-- **segment correctness at the level of numbers, general form**: `Lp p` is the segment start at which sieving prime p was
+    added (any multiple of 30 not beyond the segment of n) and H ≥ n bounds the sieving primes that are needed (p² ≤ H).  Take any number n = L + 30·o + offs[b] of a segment starting at L (n > 163,
     n ≤ stop < 2^64).  Route every sieving prime p (163 < p, p² ≤ stop, hence p < 2^32) to the 30-wheel
     (EratSmall / EratMedium) or the 210-wheel (EratBig) in any way (`big p`).  Then n is prime iff its
     pre-sieved bit is 1 and no sieving prime crosses it off — where "crosses off" is what the REAL
     addSievingPrime (wrapping arithmetic, regenerated INIT tables) followed by walks over the REAL
     cross-off tables does. -/
-theorem segment_number_correct (big : Nat → Bool) (stop L o b : Nat) (hL : L % 30 = 0) (hb : b < 8)
-    (h163 : 163 < L + 30 * o + PreSieve.offs.getD b 0) (hns : L + 30 * o + PreSieve.offs.getD b 0 ≤ stop)
+theorem segment_number_correct_at (big : Nat → Bool) (Lp : Nat → Nat) (stop H L o b : Nat) (hL : L % 30 = 0) (hb : b < 8)
+    (hLp : ∀ p, Lp p % 30 = 0 ∧ Lp p ≤ L)
+    (h163 : 163 < L + 30 * o + PreSieve.offs.getD b 0) (hnH : L + 30 * o + PreSieve.offs.getD b 0 ≤ H) (hHs : H ≤ stop)
     (hstop : stop < U64) (hL6 : L + 6 < U64) :
     (L + 30 * o + PreSieve.offs.getD b 0).Prime ↔
       ((preSieveByte allTables L o).testBit b = true ∧
-       ∀ p, p.Prime → 163 < p → p * p ≤ stop →
-         ¬ (if big p then CrossedOff210 stop p L (L + 30 * o + PreSieve.offs.getD b 0)
-            else CrossedOff30 stop p L (L + 30 * o + PreSieve.offs.getD b 0))) := by
+       ∀ p, p.Prime → 163 < p → p * p ≤ H →
+         ¬ (if big p then CrossedOff210 stop p (Lp p) (L + 30 * o + PreSieve.offs.getD b 0)
+            else CrossedOff30 stop p (Lp p) (L + 30 * o + PreSieve.offs.getD b 0))) := by
   set n := L + 30 * o + PreSieve.offs.getD b 0 with hn
   have hcop := number_coprime L o b hL hb
   have hL7 : L + 6 < n := by have := (offs_coprime b hb).2; omega
   have hU : U64 = 18446744073709551616 := rfl
   -- a sieving prime with p·p ≤ stop < 2^64 is below 2^32 and coprime to 30
-  have hp32 : ∀ p, p * p ≤ stop → p < 4294967296 := by
+  have hp32 : ∀ p, p * p ≤ H → p < 4294967296 := by
     intro p hpp
     by_contra hge
     have : 4294967296 * 4294967296 ≤ p * p := Nat.mul_le_mul (by omega) (by omega)
@@ -63,7 +65,7 @@ theorem segment_number_correct (big : Nat → Bool) (stop L o b : Nat) (hL : L %
     generalize p % 30 = r at *
     have : ∀ r, r < 30 → r % 2 ≠ 0 → r % 3 ≠ 0 → r % 5 ≠ 0 → Nat.gcd r 30 = 1 := by decide
     exact this r hlt (by omega) (by omega) (by omega)
-  rw [sieve_principle (fun p => if big p then 210 else 30) (by intro p; by_cases h : big p <;> simp [h]) n stop h163 hns hcop,
+  rw [sieve_principle (fun p => if big p then 210 else 30) (by intro p; by_cases h : big p <;> simp [h]) n H h163 hnH hcop,
     ← preSieve_bit_iff L o b hL hb]
   constructor
   · rintro ⟨hpre, hcl⟩
@@ -74,15 +76,15 @@ theorem segment_number_correct (big : Nat → Bool) (stop L o b : Nat) (hL : L %
     by_cases hb' : big p
     · simp only [hb', if_true] at hco ⊢
       obtain ⟨s, q1, j, _, hden, hq1, hpn⟩ := hco
-      have hw := (walk_exact210 L j s q1 hden)
+      have hw := (walk_exact210 (Lp p) j s q1 hden)
       have hd := hw.1
-      have hg := (step_sound210 L _ _ hd).2.2.2
+      have hg := (step_sound210 (Lp p) _ _ hd).2.2.2
       exact ⟨(walk 210 j s q1).2, by have := hw.2.1; omega, hg, hpn.symm⟩
     · simp only [hb', Bool.false_eq_true, if_false] at hco ⊢
       obtain ⟨s, q1, j, _, hden, hq1, hpn⟩ := hco
-      have hw := (walk_exact30 L j s q1 hden)
+      have hw := (walk_exact30 (Lp p) j s q1 hden)
       have hd := hw.1
-      have hg := (step_sound30 L _ _ hd).2.2.2
+      have hg := (step_sound30 (Lp p) _ _ hd).2.2.2
       exact ⟨(walk 30 j s q1).2, by have := hw.2.1; omega, hg, hpn.symm⟩
   · rintro ⟨hpre, hco⟩
     refine ⟨hpre, ?_⟩
@@ -94,39 +96,50 @@ theorem segment_number_correct (big : Nat → Bool) (stop L o b : Nat) (hL : L %
     by_cases hb' : big p
     · simp only [hb', if_true] at hcl ⊢
       obtain ⟨x, hpx, hgx, hnx⟩ := hcl
-      have hq0 := quotient_ge_first p L x hp0 hpx (by rw [← hnx]; exact hL7)
-      have e := addSievingPrime_eq_exact 210 48 Gen.wheel210Init init_le_10.2 stop p L hp0 h32 hL6 hstop
-      cases hr : addSievingPrime 210 48 Gen.wheel210Init stop p L with
+      have hq0 := quotient_ge_first p (Lp p) x hp0 hpx (by rw [← hnx]; have := (hLp p).2; omega)
+      have e := addSievingPrime_eq_exact 210 48 Gen.wheel210Init init_le_10.2 stop p (Lp p) hp0 h32 (by have := (hLp p).2; omega) hstop
+      cases hr : addSievingPrime 210 48 Gen.wheel210Init stop p (Lp p) with
       | none =>
         rw [e] at hr
-        have := addSievingPrimeExact_none 210 48 Gen.wheel210Init (by decide) wheel210Init_spec init210_ok stop p L hr x hq0 hgx
+        have := addSievingPrimeExact_none 210 48 Gen.wheel210Init (by decide) wheel210Init_spec init210_ok stop p (Lp p) hr x hq0 hgx
         omega
       | some s =>
         have hr' := hr; rw [e] at hr'
         obtain ⟨q1, hd, hq1, _, hleast, _⟩ := addSievingPrimeExact_spec 210 48 Gen.wheel210Init (by decide) (by decide)
-          cls210_len (by decide) wheel210Init_spec init210_ok bit210_ok stop p L hc30 hp0 hL s hr'
+          cls210_len (by decide) wheel210Init_spec init210_ok bit210_ok stop p (Lp p) hc30 hp0 (hLp p).1 s hr'
         have hq1x : q1 ≤ x := by
           by_contra hlt
           exact hleast x hq0 (by omega) hgx
-        obtain ⟨j, hj, _⟩ := walk_reaches210 L s q1 x hd hq1x hgx
+        obtain ⟨j, hj, _⟩ := walk_reaches210 (Lp p) s q1 x hd hq1x hgx
         exact ⟨s, q1, j, hr, hd, hq1, by rw [hj]; exact hnx.symm⟩
     · simp only [hb', Bool.false_eq_true, if_false] at hcl ⊢
       obtain ⟨x, hpx, hgx, hnx⟩ := hcl
-      have hq0 := quotient_ge_first p L x hp0 hpx (by rw [← hnx]; exact hL7)
-      have e := addSievingPrime_eq_exact 30 8 Gen.wheel30Init init_le_10.1 stop p L hp0 h32 hL6 hstop
-      cases hr : addSievingPrime 30 8 Gen.wheel30Init stop p L with
+      have hq0 := quotient_ge_first p (Lp p) x hp0 hpx (by rw [← hnx]; have := (hLp p).2; omega)
+      have e := addSievingPrime_eq_exact 30 8 Gen.wheel30Init init_le_10.1 stop p (Lp p) hp0 h32 (by have := (hLp p).2; omega) hstop
+      cases hr : addSievingPrime 30 8 Gen.wheel30Init stop p (Lp p) with
       | none =>
         rw [e] at hr
-        have := addSievingPrimeExact_none 30 8 Gen.wheel30Init (by decide) wheel30Init_spec init30_ok stop p L hr x hq0 hgx
+        have := addSievingPrimeExact_none 30 8 Gen.wheel30Init (by decide) wheel30Init_spec init30_ok stop p (Lp p) hr x hq0 hgx
         omega
       | some s =>
         have hr' := hr; rw [e] at hr'
         obtain ⟨q1, hd, hq1, _, hleast, _⟩ := addSievingPrimeExact_spec 30 8 Gen.wheel30Init (by decide) (by decide)
-          (by decide +kernel) (by decide) wheel30Init_spec init30_ok bit30_ok stop p L hc30 hp0 hL s hr'
+          (by decide +kernel) (by decide) wheel30Init_spec init30_ok bit30_ok stop p (Lp p) hc30 hp0 (hLp p).1 s hr'
         have hq1x : q1 ≤ x := by
           by_contra hlt
           exact hleast x hq0 (by omega) hgx
-        obtain ⟨j, hj, _⟩ := walk_reaches30 L s q1 x hd hq1x hgx
+        obtain ⟨j, hj, _⟩ := walk_reaches30 (Lp p) s q1 x hd hq1x hgx
         exact ⟨s, q1, j, hr, hd, hq1, by rw [hj]; exact hnx.symm⟩
+
+/-- the special case in which every sieving prime is added at the segment of n itself and H = stop -/
+theorem segment_number_correct (big : Nat → Bool) (stop L o b : Nat) (hL : L % 30 = 0) (hb : b < 8)
+    (h163 : 163 < L + 30 * o + PreSieve.offs.getD b 0) (hns : L + 30 * o + PreSieve.offs.getD b 0 ≤ stop)
+    (hstop : stop < U64) (hL6 : L + 6 < U64) :
+    (L + 30 * o + PreSieve.offs.getD b 0).Prime ↔
+      ((preSieveByte allTables L o).testBit b = true ∧
+       ∀ p, p.Prime → 163 < p → p * p ≤ stop →
+         ¬ (if big p then CrossedOff210 stop p L (L + 30 * o + PreSieve.offs.getD b 0)
+            else CrossedOff30 stop p L (L + 30 * o + PreSieve.offs.getD b 0))) :=
+  segment_number_correct_at big (fun _ => L) stop stop L o b hL hb (fun _ => ⟨hL, Nat.le_refl _⟩) h163 hns (Nat.le_refl _) hstop hL6
 
 end Ps.Wheel
